@@ -4,7 +4,7 @@ import math
 
 import numpy as np
 
-from .. import cards, common, realrun
+from .. import cards, common, corr_sv, realrun
 from ..common import Driver, q, unq
 
 
@@ -90,14 +90,23 @@ def corr(chk, r, n):
 
 def search(chk, r, n):
     """real runs across a wall: (2,0,1,0) = -beta0(nf) * (1,0,0,0) with nf from an independent count"""
+    plan = []
+    # deterministic part: ratios != 1, on both sides of where the wall is and of where a wrongly
+    # built wall (m^2 k, m k^2, m^2) would be
+    for kc in (2.0, 0.7):
+        w = float(np.power(np.array([1.51]), 2)[0] * np.power(np.array([kc]), 2)[0])
+        for f in (0.75, 1.0, 1.3):
+            plan.append((1.51, kc, "c", w * f if f != 1.0 else w, ("ZM-VFNS", 4)))
     for _ in range(n):
         mc = float(r.choice([1.51, 1.3, 2.0]))
         kc = float(r.choice([1.0, 2.0, 0.7]))
-        mb = 4.92
         which = r.choice(["c", "b"])
-        w = float(np.power(np.array([mc if which == "c" else mb]), 2)[0] * np.power(np.array([kc if which == "c" else 1.0]), 2)[0])
+        w = float(np.power(np.array([mc if which == "c" else 4.92]), 2)[0] * np.power(np.array([kc if which == "c" else 1.0]), 2)[0])
         Q2 = float(r.choice([w, float(np.nextafter(w, 0)), float(np.nextafter(w, np.inf)), w * 1.5, w * 0.7]))
-        scheme, nfff = r.choice([("ZM-VFNS", 4), ("ZM-VFNS", 4), ("FFNS", 3), ("FFNS", 4), ("FFN0", 5), ("FONLL-FFNS", 4)])
+        plan.append((mc, kc, which, Q2, r.choice([("ZM-VFNS", 4), ("ZM-VFNS", 4), ("FFNS", 3), ("FFNS", 4), ("FFN0", 5), ("FONLL-FFNS", 4)])))
+    for mc, kc, which, Q2, (scheme, nfff) in plan:
+        mb = 4.92
+        w = float(np.power(np.array([mc if which == "c" else mb]), 2)[0] * np.power(np.array([kc if which == "c" else 1.0]), 2)[0])
         t = cards.theory(PTO=2, FNS=scheme, NfFF=nfff, mc=mc, kcThr=kc, mb=mb)
         name = "F3_light" if scheme != "ZM-VFNS" else r.choice(["F2_light", "F3_light"])
         out = realrun.run(t, cards.obs({name: [dict(x=0.2, Q2=Q2)]}, prDIS="NC", interpolation_xgrid=cards.default_grid(8)))
@@ -118,13 +127,41 @@ def search(chk, r, n):
         chk.search_case("beta0_follows_nf", d <= 1e-11 * max(s, 1e-300), what=f"{scheme}: (2,0,1,0) != -beta0(nf={nf})*(1,0,0,0) at Q2={Q2}", data=sample, sample=sample, nontrivial=s > 0)
 
 
+def search_heavy_beta(chk, r, n):
+    """fixed-flavour schemes: the beta-function coefficient of *every* contribution (light, heavy,
+    heavy-quark initiated) uses NfFF — read off below the pair threshold where F2_bottom/top is
+    the heavy-quark initiated piece alone"""
+    for _ in range(n):
+        nfff, name, Q2, x = r.choice([(3, "F2_bottom", 50.0, 0.7), (3, "F2_bottom", 90.0, 0.5), (4, "F2_top", 1e5, 0.5), (4, "F2_bottom", 50.0, 0.7)])
+        # Q2(1-x)/x <= 4 m^2: no pair production, but x/eta < 1: the heavy-quark initiated piece is there
+        t = cards.theory(PTO=2, FNS="FFNS", NfFF=nfff)
+        try:
+            res = realrun.run(t, cards.obs({name: [dict(x=x, Q2=Q2)]}, prDIS="EM", interpolation_xgrid=cards.default_grid(8, 1e-2)))[name][0]
+        except Exception as e:
+            chk.extra.setdefault("search_exceptions", {})
+            k = f"heavy-beta:{type(e).__name__}:{str(e)[:80]}"
+            chk.extra["search_exceptions"][k] = chk.extra["search_exceptions"].get(k, 0) + 1
+            continue
+        beta0 = 11.0 - 2.0 * nfff / 3.0
+        a = np.array(res.orders[(2, 0, 1, 0)][0])
+        b = np.array(res.orders[(1, 0, 0, 0)][0])
+        d = float(np.abs(a + beta0 * b).max())
+        sc = float(np.abs(b).max()) * beta0
+        sample = dict(obs=name, NfFF=nfff, x=x, Q2=Q2, maxdiff=d, scale=sc)
+        chk.search_case("beta0_of_heavy_pieces", d <= 1e-10 * max(sc, 1e-300), what=f"FFNS NfFF={nfff} {name}: (2,0,1,0) != -beta0(NfFF)*(1,0,0,0)", data=sample, sample=sample, nontrivial=sc > 0)
+
+
 def run(tier):
     chk = common.Check("C06", tier)
     thorough = tier == "thorough"
     common.lean_proof_step(chk, "YadismModel.Properties.C06", thorough=thorough)
     r = common.rng("C06")
     corr(chk, r, 300 if thorough else 40)
-    search(chk, r, 60 if thorough else 8)
+    # the same nf feeds the scale-variation algebra: compute_local vs the model (which uses the
+    # Combiner's nf for every kernel), heavy flavours included
+    corr_sv.run_sv(chk, 200 if thorough else 30, r, stream="compute_local_nf")
+    search(chk, r, 60 if thorough else 6)
+    search_heavy_beta(chk, r, 8 if thorough else 3)
     chk.assumptions += [
         "thresholds are compared as exact rationals of the doubles the Runner built (m^2*k^2 in IEEE arithmetic); the formation of the product itself is compared to 2 ulp",
         "unsorted thresholds: numpy.digitize raises ValueError, modelled as rejection",
